@@ -4,7 +4,7 @@ CONSTANTS
   InitNames <- Names4
   InitConsts <- Consts4
   NamePool = {"a", "b"}
-  Focus = {"ReplaceInput","ResizeInputs","ResizeOutputs","ReplaceAllUses","NewNode","IOAppend","GRemove"}
+  Focus = {"ReplaceInput","ResizeInputs","ResizeOutputs","ReplaceAllUses","ReplaceAllUsesSeq","NewNode","IOAppend","GRemove"}
   SeedIds = {1,3,4}
   OpGraphs = {1}
   ForeignOps = {"IOAppend"}
